@@ -31,7 +31,10 @@ Con(cid, rel, lhs, rhs, grid, incF, incL) ==
 Box(cid, lo, e, hi, grid, incF, incL) ==
   [cid |-> cid, rel |-> "box", lhs |-> e, rhs |-> CI(0), lo |-> lo, hi |-> hi,
    grid |-> grid, incF |-> incF, incL |-> incL, scale |-> One]
-Scaled(c, s) == [c EXCEPT !.scale = s]
+VCon(cid, lhs, rhs, grid, incF, incL, vscale) ==
+  [cid |-> cid, rel |-> "vle", lhs |-> lhs, rhs |-> rhs, lo |-> CI(0), hi |-> CI(0),
+   grid |-> grid, incF |-> incF, incL |-> incL, scale |-> One, vscale |-> vscale]
+Scaled(c, s) == IF c.rel = "vle" THEN c ELSE [c EXCEPT !.scale = s]
 
 MethodDC(N, M, scheme, degree, grid) ==
   [kind |-> "DC", N |-> N, M |-> M, intg |-> "", grid |-> grid, degree |-> degree, scheme |-> scheme]
@@ -117,10 +120,12 @@ KB == Con("kB", "ge", Plus(Off(X(1), 2), Off(U(1), -1)), CI(-9), "control", TRUE
 
 KR == Con("kR", "le", Times(X(1), Tm), CI(6), "roots", TRUE, TRUE)
 KS == Box("kS", CI(-8), Plus(X(1), U(1)), CI(8), "roots", TRUE, TRUE)
+\* vector-valued path constraint with element-wise scale
+KV == VCon("kV", <<X(1), Times(U(1), Tm)>>, <<CI(5), Plus(CI(3), X(1))>>, "control", TRUE, FALSE, <<R(2), Q(1, 2)>>)
 ConIds == {"k1", "k2", "k3", "k4", "k5", "k6", "k7", "k8", "k9", "kA", "kB"}
 ConOf(id) == CASE id = "k1" -> K1 [] id = "k2" -> K2 [] id = "k3" -> K3 [] id = "k4" -> K4
                [] id = "k5" -> K5 [] id = "k6" -> K6 [] id = "k7" -> K7 [] id = "k8" -> K8
-               [] id = "k9" -> K9 [] id = "kA" -> KA [] id = "kB" -> KB [] id = "kR" -> KR [] id = "kS" -> KS
+               [] id = "k9" -> K9 [] id = "kA" -> KA [] id = "kB" -> KB [] id = "kR" -> KR [] id = "kS" -> KS [] id = "kV" -> KV
 
 (***************************************************************************)
 (* Objective terms.  Integrands live in d.quads and are referred to by     *)
